@@ -18,6 +18,10 @@ def load():
 
 
 def apply(root, m):
+    if m.get("patch"):
+        # a stored patch file (the seeded changes that prompted a rule are its positive example on every thorough run)
+        r = subprocess.run(["patch", "-p1", "-s", "-d", root, "-i", os.path.join(VERIF, m["patch"])], stdout=subprocess.PIPE, stderr=subprocess.STDOUT, text=True)
+        return None if r.returncode == 0 else "patch does not apply: %s" % r.stdout[:200]
     for e in m["edits"]:
         p = os.path.join(root, e["file"])
         s = open(p).read()
